@@ -64,9 +64,11 @@ class MapCarrier : public context::propagation::TextMapCarrier {
   std::map<std::string, std::unique_ptr<Block>> m;
   std::vector<std::string> sets;  // keys passed to Set, in order
   Block absent{std::string()};
+  bool absent_null = false;  // opt-in: an absent key is answered with a default-constructed view (null data) instead of the zero-byte block
 
   nostd::string_view Get(nostd::string_view key) const noexcept override {
     auto it = m.find(std::string(key.data(), key.size()));
+    if (it == m.end() && absent_null) return nostd::string_view();
     return it == m.end() ? absent.view() : it->second->view();
   }
   void Set(nostd::string_view key, nostd::string_view value) noexcept override {
